@@ -89,6 +89,7 @@ ASK = {  # name -> (constructor, uses now, uses elapsed)
     'bar': ('KBar', 1, 0), 'beat_in_bar': ('KBeatInBar', 1, 0),
     '_calc_sched_beats': ('KSchedBeats', 1, 0),
 }
+DRV = 999999      # id of the driver routine among the pending tasks
 SETS = {'tempo': 'OTempo', 'etempo': 'OEtempo', 'beats': 'OBeats', 'meter': 'OMeter'}
 RT_TEMPI = [2, 2, 4, 8, 16]
 RT_METERS = [Fraction(1, 2), 1, 2]
@@ -169,15 +170,34 @@ def case_term(case, out, rt=False):
         return ('session_bad %s %s %s %s %s [] []' % ('true' if rt else 'false', now0, num_term(i['tempo']), num_term(i['beats']), secs),
                 ['constructor'])
     acts, desc = [], ['constructor']
-    if not rt:
-        for a in first_play_actions(case['start_quant'], out['first_play']):
-            acts.append(a)
-            desc.append('first play quant=%s -> %s' % (case['start_quant'], out['first_play']))
+    fp = out['first_play']
+    if not rt and 'raised' in fp:
+        acts.append('AAsk (KPlayBeat %s %s) (2, 0, 0)%%Z' % (out_as_num(fp['now']), quant_term(case['start_quant'])))
+        desc.append('first play quant=%s -> %s' % (case['start_quant'], fp))
+    elif not rt:
+        # the driver routine is itself a task played with a quant, woken, re-scheduled by every yield
+        acts.append('APlay %d%%N %s %s' % (DRV, out_as_num(fp['now']), quant_term(case['start_quant'])))
+        desc.append('first play quant=%s -> %s' % (case['start_quant'], fp))
     flat = [a for st in case['steps'] for a in st['acts']]
+    first_dwake = True
     for ev in out['events']:
         if 'wake' in ev:
             acts.append('AWake %d%%N %s %s' % (ev['wake'], enc_term(ev['beats']), enc_term(ev['secs'])))
             desc.append('wake-up of played routine %s' % ev)
+            continue
+        if 'dwake' in ev:
+            if rt and first_dwake:
+                # RT: played from the main thread at a physical time: taken as observed
+                acts.append('AAdopt %d%%N %s %s' % (DRV, out_as_num(ev['beats']), out_as_num(ev['secs'])))
+            else:
+                acts.append('AWake %d%%N %s %s' % (DRV, enc_term(ev['beats']), enc_term(ev['secs'])))
+            desc.append('wake-up of the driver routine %s' % ev)
+            first_dwake = False
+            continue
+        if 'dyield' in ev or 'cyield' in ev:
+            rid = DRV if 'dyield' in ev else ev['cyield']
+            acts.append('AYield %d%%N %s' % (rid, num_term(ev.get('dyield') or ev.get('d'))))
+            desc.append('routine %s yields %s' % (rid, ev))
             continue
         act = flat[ev['k']]
         if act[0] == 'sleep':
@@ -222,10 +242,17 @@ def incomplete(case, out):
     done = [e for e in out['events'] if 'k' in e]
     if len(done) != len(flat):
         return 'driver routine did not complete: %d of %d acts' % (len(done), len(flat))
-    ids = {e['id'] for e in done if 'id' in e}
-    woke = [e['wake'] for e in out['events'] if 'wake' in e]
-    if sorted(woke) != sorted(ids):
-        return 'played routines %s, woken %s (each must run exactly once)' % (sorted(ids), sorted(woke))
+    want = {}
+    for e in done:
+        if 'id' in e:
+            a = flat[e['k']]
+            want[e['id']] = 1 + (len(a[2]) if len(a) > 2 else 0)
+    woke = {}
+    for e in out['events']:
+        if 'wake' in e:
+            woke[e['wake']] = woke.get(e['wake'], 0) + 1
+    if woke != want:
+        return 'played routines must wake %s times (1 + their yields), woke %s' % (want, woke)
     return None
 
 
@@ -364,14 +391,22 @@ def gen_set(rng, malformed, rt=False):
     return ['set', 'meter', nm(rng, v)]
 
 
+def gen_walk(rng, rt):
+    """the numbers a played routine yields one after the other (it sleeps while the driver changes the clock)"""
+    if rng.random() < 0.5:
+        return []
+    top = 4 if rt else 16
+    return [nm(rng, Fraction(rng.randint(0, top), 8)) for _ in range(rng.randint(1, 3))]
+
+
 def gen_play(rng, malformed, rt=False):
     if rng.random() < 0.15:
         return ['play_next_bar']
     if rt:
         q = Fraction(rng.choice([Fraction(1, 4), Fraction(1, 2), Fraction(3, 4), 1, 1, Fraction(3, 2)]))
         p = Fraction(rng.randint(-int(q * 8) + 1, int(q * 8) - 1), 8)
-        return [rng.choice(['play', 'clock_play']), ['pair', nm(rng, q), nm(rng, p)]]
-    return [rng.choice(['play', 'clock_play']), gen_quantarg(rng, malformed and rng.random() < 0.3)]
+        return [rng.choice(['play', 'clock_play']), ['pair', nm(rng, q), nm(rng, p)], gen_walk(rng, rt)]
+    return [rng.choice(['play', 'clock_play']), gen_quantarg(rng, malformed and rng.random() < 0.3), gen_walk(rng, rt)]
 
 
 def gen_case(rng, malformed=False, nsteps=None, rt=False):
@@ -445,8 +480,11 @@ def falsify(rng, case, prob=0.4):
                         act[2] = [zq(act[2][0])]
                 else:
                     act[2] = [z() if rng.random() < prob else a for a in act[2]]
-            elif act[0] in ('play', 'clock_play') and rng.random() < prob:
-                act[1] = zq(act[1])
+            elif act[0] in ('play', 'clock_play'):
+                if rng.random() < prob:
+                    act[1] = zq(act[1])
+                if len(act) > 2:
+                    act[2] = [z(stored=True) if rng.random() < prob / 2 else d for d in act[2]]
     return case
 
 
@@ -474,8 +512,11 @@ def changes_before_wake(case, out):
     flat = [a for st in case['steps'] for a in st['acts']]
     pending, n = {}, 0
     for e in out.get('events', []):
+        if 'k' not in e and 'wake' not in e:
+            continue
         if 'wake' in e:
-            n += 1 if pending.pop(e['wake'], 0) else 0
+            n += 1 if pending.get(e['wake'], 0) else 0
+            pending[e['wake']] = 0
         elif 'id' in e:
             pending[e['id']] = 0
         elif flat[e['k']][0] == 'set' and 'raised' not in e:
@@ -506,6 +547,8 @@ def tally(c, tagged, out, mode):
         for e in o.get('events', []):
             if 'wake' in e:
                 c.count(mode + ' wake-up')
+            elif 'k' not in e:
+                c.count(mode + (' driver wake-up' if 'dwake' in e else ' yield of the driver' if 'dyield' in e else ' yield of a played routine'))
             else:
                 a = flat[e['k']]
                 key = mode + ' ' + a[0] + ':' + (str(a[1]) if a[0] in ('set', 'ask') else '')
